@@ -217,9 +217,12 @@ class Check:
                 return run  # simulation under timeout is fine
             raise ToolError(f"TLC timeout on {module}")
         if expect_violation:
-            if violated != expect_violation:
-                log(f"NOTE: expected as-is counterexample of {expect_violation} no longer reproduces in the model")
-            run["expected_violation_reproduced"] = violated == expect_violation
+            # a wrong design may break several invariants; with several TLC workers the one reported first varies,
+            # so a tuple / list of acceptable names may be given
+            accepted = (expect_violation,) if isinstance(expect_violation, str) else tuple(expect_violation)
+            if violated not in accepted:
+                log(f"NOTE: expected as-is counterexample of {'/'.join(accepted)} no longer reproduces in the model")
+            run["expected_violation_reproduced"] = violated in accepted
             return run
         if violated or rc not in (0,):
             tail = "\n".join(text.splitlines()[-40:])
